@@ -721,7 +721,7 @@ def c07(ctx):
 # C08  FEN loading faithful and total
 
 
-@check('C08', ['C08.v'])
+@check('C08', ['C08.v', 'C08rt.v'])
 def c08(ctx):
     n = 5000 if ctx.quick else 400000
     cases, impl, model, model_raw, notes, stats = line_stream(ctx, 'fen', 'f08', [n])
